@@ -62,3 +62,26 @@ func VerifPartialMessages(l *NDNLPLinkService) int { return len(l.partialMessage
 
 // VerifSetCongestionMarking switches the package-level congestion marking setting.
 func VerifSetCongestionMarking(on bool) { congestionMarking = on }
+
+// VerifNewInternalTransport makes the real InternalTransport (the management face's transport) with
+// the given MTU and receive-queue capacity; it is not attached to a forwarder and nothing receives
+// from it, so frames handed to sendFrame stay queued until VerifInternalDrain takes them.
+func VerifNewInternalTransport(mtu int, queueCap int) *InternalTransport {
+	t := MakeInternalTransport()
+	t.mtu = mtu
+	t.recvQueue = make(chan []byte, queueCap)
+	return t
+}
+
+// VerifInternalDrain removes and returns the frames queued towards the internal component.
+func VerifInternalDrain(t *InternalTransport) [][]byte {
+	var out [][]byte
+	for {
+		select {
+		case f := <-t.recvQueue:
+			out = append(out, f)
+		default:
+			return out
+		}
+	}
+}
